@@ -60,6 +60,8 @@ type Block struct {
 	Props   []string
 	used    bool
 	expanded bool
+	Trusted   bool // contract used at call sites but the body is NOT verified (reported as an assumption)
+	Parsetime bool // builds/mutates the syntax tree: may write any non-read-only location; callers havoc its write set wholesale
 }
 
 type Spec struct {
@@ -86,6 +88,7 @@ type ReadSet struct {
 }
 
 type Contracts struct {
+	Guards      [][2]string
 	ReadSets    []*ReadSet
 	Blocks      map[string]*Block // key: kind+" "+name
 	Order       []*Block
@@ -179,6 +182,14 @@ func loadContracts(path string) (*Contracts, error) {
 			cur = nil
 		case "smt":
 			cs.RawSMT = append(cs.RawSMT, rest)
+			cur = nil
+		case "guarded":
+			// guarded <var> by <mutex>
+			f := strings.Fields(rest)
+			if len(f) != 3 || f[1] != "by" {
+				return nil, fail(fmt.Errorf("guarded: expected 'guarded X by M'"))
+			}
+			cs.Guards = append(cs.Guards, [2]string{f[0], f[2]})
 			cur = nil
 		case "callsonce":
 			// callsonce <name> [props]: f1, f2  -- each listed function has exactly one call through a function value, outside any loop
@@ -295,7 +306,11 @@ func loadContracts(path string) (*Contracts, error) {
 				}
 			case "inline":
 				cur.Inline = true
-			case "pure", "nopanic", "mayalloc", "trusted", "implements", "include":
+			case "parsetime":
+				cur.Parsetime = true
+			case "trusted":
+				cur.Trusted = true
+			case "pure", "nopanic", "mayalloc", "implements", "include":
 			default:
 				return nil, fail(fmt.Errorf("unknown clause %q", word))
 			}
@@ -337,6 +352,9 @@ func (cs *Contracts) expand(b *Block, depth int) error {
 			return err
 		}
 		ref.used = true
+		if ref.Parsetime {
+			b.Parsetime = true
+		}
 		out = append(out, ref.Clauses...)
 		out = append(out, c) // keep the marker
 	}
